@@ -274,8 +274,14 @@ def time_shift(z, /, shift, crop=False):
             f"got {shift.ndim} dimensions!"
         )
 
+    # A shift within 1e-8 of a whole number of samples is that number (time
+    # Quantities convert with rounding errors: 2000 ns at 500 kHz is
+    # 1.0000000000000002 samples).
+    whole = np.round(shift)
+    shift = np.where(np.abs(shift - whole) <= 1e-8, whole, shift)
+
     # If shifts are zero, do nothing
-    if np.allclose(shift, 0):
+    if not np.any(shift):
         return z
 
     if shift.ndim > 0:
@@ -374,6 +380,10 @@ def freq_shift(z, /, shift):
     for a in it:
         # A shift given along a length-1 (broadcast) axis applies to the whole axis
         bix = tuple(i if n > 1 else slice(None) for i, n in zip(it.multi_index, ft.shape))
+        # A whole number of bins up to rounding (3 Hz at 10 Hz over 10 samples
+        # comes out as 3.0000000000000004 bins) is that number of bins.
+        if abs(a - np.round(a)) <= 1e-8:
+            a = np.round(a)
         if a < 0:
             a = int(np.floor(a))
             ix = (np.s_[a:],) + bix
